@@ -11,6 +11,9 @@
 (*        depths start at 1, increase one by one, stay within the limit;   *)
 (*        mate in n > 0: the line has 2n-1 plies and ends with the         *)
 (*        opponent checkmated; n < 0: 2|n| plies and the root side mated   *)
+(*   C09  (fields untouched, stopk, polls, nodes_at_stop, max_nodes) the   *)
+(*        caller's game is unchanged; after the stop was observed nothing  *)
+(*        more is examined                                                 *)
 (***************************************************************************)
 EXTENDS Chess, Json, IOUtils, Reporting
 
@@ -60,6 +63,16 @@ Clauses(i) ==
                        [fen |-> e.fen, best |-> e.best, tag |-> e.tag])
            ELSE TRUE
         /\ \A j \in 1..Len(e.infos) : InfoClauses(e, p, i, j)
+        \* C09: the caller's position is left untouched; once the stop was observed (at flag load number
+        \* stopk) no further position is examined: at most one more flag load, no larger node count.
+        /\ ViolAt(e.untouched, "C09", i, "caller-position-modified", [fen |-> e.fen, tag |-> e.tag, stopk |-> e.stopk])
+        /\ IF e.stopk > 0 /\ e.polls >= e.stopk
+           THEN /\ ViolAt(e.polls <= e.stopk + 1, "C09", i, "flag-loaded-after-stop",
+                          [fen |-> e.fen, tag |-> e.tag, stopk |-> e.stopk, polls |-> e.polls])
+                /\ DriftAt(e.polls = e.stopk, "C09", i, "one-extra-poll", [fen |-> e.fen, stopk |-> e.stopk])
+                /\ ViolAt(e.max_nodes <= e.nodes_at_stop, "C09", i, "positions-examined-after-stop",
+                          [fen |-> e.fen, tag |-> e.tag, stopk |-> e.stopk, at_stop |-> e.nodes_at_stop, max |-> e.max_nodes])
+           ELSE TRUE
 
 ASSUME \A i \in 1..N : Clauses(i)
 ASSUME Stat("search", [searches |-> N,
